@@ -119,6 +119,26 @@ def run(ctx):
                     sig = "C19:int-capacity:%s:%s:beyond-type" % (d, tname)
                 ctx.violation(sig, "%s: Integer %d...%d becomes %s%s which cannot store %s" % (
                     d, lo, hi, tname, "(%s)" % ", ".join(map(str, args)) if args else "", lo if not ok_lo else hi), case)
+    # Integer fields that declare a length and no rule: the column must store the limits of the length-derived range
+    len_lines, len_meta = [], []
+    for n_chars in range(1, 21):
+        lo_, hi_ = -(10 ** (n_chars - 1) - 1), 10 ** n_chars - 1
+        for d in DIALECTS:
+            len_lines.append(line("sql.int", d, str(lo_), str(hi_)))
+            len_meta.append((n_chars, lo_, hi_, d))
+    for (n_chars, lo_, hi_, d), mo in zip(len_meta, core.run_driver(len_lines)):
+        _, mkv = parse_kv("x " + mo)
+        cid = make_cid([{"name": "n", "empty": False, "length": "1...%d" % n_chars, "type": "Integer", "rule": ""}])
+        try:
+            name, quoted, tname, args, not_null = parse_columns(statement_for(cid, d))[0]
+        except Exception as error:  # noqa
+            ctx.violation("C19:int:exception:%s" % d, "SqlFactory fails for Integer of length 1...%d: %r" % (n_chars, error), {"length": n_chars, "dialect": d})
+            continue
+        margs = [] if mkv["args"] == "~" else [int(a) for a in mkv["args"].split(",")]
+        ctx.count(key=("int-length", n_chars, d), branch="%s:%s" % (d, tname))
+        if (tname, args) != (mkv["type"], margs):
+            ctx.violation("C19:int:type-choice:%s:length-only" % d, "%s: Integer with length 1...%d (range %d...%d) gives %s%r, model %s%r" % (d, n_chars, lo_, hi_, tname, args, mkv["type"], margs),
+                          {"length": n_chars, "dialect": d})
     # generated CIDs: columns, order, quoting, not null, decimal digits, text length
     names_pool = ["id", "customer", "select", "table", "order", "amount", "name", "user", "value", "date", "Level", "Key", "x1", "comment", "number", "size"]
     n = 300 if ctx.tier == "quick" else 3000
@@ -130,7 +150,7 @@ def run(ctx):
             ty = rnd.choice(["Text", "Integer", "Decimal", "Choice", "DateTime", "Pattern"])
             f = {"name": name, "empty": rnd.random() < 0.4, "length": "", "type": ty, "rule": ""}
             if ty == "Text":
-                f["length"] = rnd.choice(["", "5", "1...20", "...30", "3...", "0...10", "0, 3...5", "0...4", "10...20, 1...5", "12, 3", "7...9, 2"])
+                f["length"] = rnd.choice(["", "5", "1...20", "...30", "3...", "0...10", "0, 3...5", "0...4", "10...20, 1...5", "12, 3", "7...9, 2", "1...4001", "10...32000", "5000", "...70000"])
             elif ty == "Integer":
                 f["rule"] = "%d...%d" % (rnd.randint(-100, 0), rnd.randint(1, 10 ** rnd.randint(1, 12)))
                 if rnd.random() < 0.3:
